@@ -72,3 +72,9 @@ package cwriter
 //@   ensures  b: result.Buffer != nil && result.out == out
 //@   ensures  c: result.termSize != nil
 //@   ensures  d: wkey(result.out) != result.Buffer
+
+// a descriptor is a terminal exactly when the kernel answers the terminal-attributes request for it
+//@ func IsTerminal
+//@   props    C04 C02
+//@   ensures  asked: called("golang.org/x/sys/unix.IoctlGetTermios") == old(called("golang.org/x/sys/unix.IoctlGetTermios")) + 1 && calledWith("golang.org/x/sys/unix.IoctlGetTermios", 0) == fd
+//@              && result == (returned("golang.org/x/sys/unix.IoctlGetTermios", 1) == nil)
